@@ -25,7 +25,8 @@ RULE = (
     "concurrent mode: 2-3 threads x 1-2 documents from Random(f'{VERIF_SEED}:C09T:{i}') call statham.__main__.main(uri) "
     "(materialize + title labelling + parse + serialize_python) under the baton-passing scheduler; json_ref_dict frames run "
     "atomically, every statham frame is pre-emptible. Oracle: each generated module equals the module generated for the same "
-    "document alone in a pristine process. Non-trivial run: >=2 generations overlapping in time, each document holding "
+    "document alone in a pristine process. In 40% of runs the threads instead serialise (serialize_python / serialize_json) "
+    "one shared, already parsed element tree and must each produce the text produced alone. Non-trivial run: >=2 generations overlapping in time, each document holding "
     ">=2 equally-titled distinct object schemas; distinct = distinct schedule digests."
 )
 COMPONENTS = {
@@ -36,7 +37,7 @@ COMPONENTS = {
 ASSUMPTIONS = [
     "threads generate from different files; json_ref_dict's own caches/IO run atomically (outside the package)",
 ]
-REDUCE_ROOTS = (("threads",),)
+REDUCE_ROOTS = (("threads",), ("document",))
 
 
 def prepare():
@@ -64,6 +65,36 @@ def _generate(uri):
         return "EXC:" + type(exc).__name__
 
 
+def _parse(uri):
+    from json_ref_dict import RefDict, materialize
+    from statham.schema.parser import parse
+    from statham.titles import title_labeller
+
+    return parse(materialize(RefDict.from_uri(uri), context_labeller=title_labeller()))
+
+
+def _serialise(kind, elements):
+    from statham.serializers import serialize_json, serialize_python
+
+    try:
+        if kind == "py":
+            return serialize_python(*elements)
+        return json.dumps(serialize_json(*elements), default=repr)
+    except RecursionError:
+        return "EXC:RecursionError"
+    except Exception as exc:  # pylint: disable=broad-except
+        return "EXC:" + type(exc).__name__
+
+
+def solo_tree(uri, kinds):
+    """Reference for the shared-tree mode: parse once, serialise alone."""
+    try:
+        elements = _parse(uri)
+    except Exception as exc:  # pylint: disable=broad-except
+        return None, "EXC:" + type(exc).__name__
+    return {kind: _serialise(kind, elements) for kind in kinds}, None
+
+
 def solo(uris):
     """Reference: every document generated alone (run via common.pristine,
     one pristine process per call of this function)."""
@@ -86,7 +117,114 @@ def _factory(uris, outputs, record):
     return factory
 
 
+def _factory_shared(case, elements, outputs, record):
+    """Threads serialise one already parsed tree (they share every element)."""
+
+    def factory(sch):
+        fns = []
+        for tid, kinds in enumerate(case["threads"]):
+            def fn(tid=tid, kinds=kinds):
+                for k, kind in enumerate(kinds):
+                    start = sch.step
+                    outputs[(tid, k)] = _serialise(kind, elements)
+                    record[(tid, k)] = (start, sch.step)
+
+            fns.append(fn)
+        return fns
+
+    return factory
+
+
+def _gen_shared(rng):
+    gen = c09.DocGen(rng)
+    gen.max_depth = rng.choice([1, 2, 2])
+    doc, ext = gen.document()
+    n_threads = rng.choice([2, 2, 3, 4])
+    threads = [
+        [rng.choice(["py", "py", "json"]) for _ in range(rng.choice([1, 1, 2]))]
+        for _ in range(n_threads)
+    ]
+    case = {
+        "prop": PROP,
+        "part": "T",
+        "mode": "shared_tree",
+        "document": doc,
+        "ext": ext,
+        "threads": threads,
+        "first": rng.randrange(n_threads),
+        "policy": tprog.gen_policy(rng, n_threads, 1500 * n_threads),
+        "policy_seed": rng.getrandbits(48),
+        "step_cap": 400000,
+    }
+    workdir = tempfile.mkdtemp(prefix="c09t_")
+    try:
+        c09.write_docs(workdir, [("shared", doc, ext)])
+        try:
+            elements = _parse(os.path.join(workdir, "shared.json") + "#/")
+        except Exception:  # pylint: disable=broad-except
+            elements = None
+        if elements is None:
+            case["segments"] = []
+        else:
+            tprog.record(case, _factory_shared(case, elements, {}, {}))
+    finally:
+        shutil.rmtree(workdir, ignore_errors=True)
+    return case
+
+
+def _exec_shared(case, log, stats):
+    workdir = tempfile.mkdtemp(prefix="c09t_")
+    try:
+        c09.write_docs(workdir, [("shared", case["document"], case.get("ext"))])
+        uri = os.path.join(workdir, "shared.json") + "#/"
+        kinds = sorted({k for kinds in case["threads"] for k in kinds})
+        alone, err = common.pristine("sim.c09t", "solo_tree", uri, kinds)
+        if err is not None:
+            stats.inc("shared_tree_documents_raising")
+            log.add("raises", err)
+            return None
+        elements = _parse(uri)
+        outputs, record = {}, {}
+        sch, digest = tprog.replay(case, _factory_shared(case, elements, outputs, record))
+    finally:
+        shutil.rmtree(workdir, ignore_errors=True)
+    log.add("schedule", digest, sch.step, sch.switches)
+    tprog.schedule_stats(stats, sch, case)
+    stats.inc("shared_tree_runs")
+    spans = []
+    for tid, kinds in enumerate(case["threads"]):
+        for k, kind in enumerate(kinds):
+            text = outputs[(tid, k)]
+            log.add(tid, k, kind, hashlib.sha256(text.encode("utf8")).hexdigest())
+            spans.append((tid, k) + record[(tid, k)])
+            stats.inc("serialisations")
+            if text != alone[kind]:
+                return {
+                    "invariant": "concurrent_output_differs_from_solo",
+                    "op_index": [tid, k],
+                    "detail": {
+                        "mode": "shared_tree",
+                        "thread": tid,
+                        "kind": kind,
+                        "concurrent": text[:1500],
+                        "alone": alone[kind][:1500],
+                        "steps": sch.step,
+                        "preemptions": sch.switches,
+                    },
+                }
+    overlapping = sum(
+        1 for a in spans for b in spans if a[0] < b[0] and a[2] <= b[3] and b[2] <= a[3]
+    )
+    stats.inc("overlapping_generations", overlapping)
+    stats["_nontrivial"] = int(
+        overlapping >= 1 and c09.is_nontrivial(case["document"], case.get("ext"))
+    )
+    return None
+
+
 def gen_case(rng):
+    if rng.random() < 0.4:
+        return _gen_shared(rng)
     n_threads = rng.choice([2, 2, 3])
     threads = []
     for _ in range(n_threads):
@@ -117,6 +255,8 @@ def gen_case(rng):
 
 
 def exec_case(case, log, stats):
+    if case.get("mode") == "shared_tree":
+        return _exec_shared(case, log, stats)
     workdir = tempfile.mkdtemp(prefix="c09t_")
     try:
         uris = _write(workdir, case)
@@ -174,6 +314,15 @@ def minimise(case, invariant, budget_s):
 
 
 def valid_case(case):
+    if case.get("mode") == "shared_tree":
+        return (
+            isinstance(case.get("document"), dict)
+            and isinstance(case.get("threads"), list)
+            and all(
+                isinstance(kinds, list) and all(k in ("py", "json") for k in kinds)
+                for kinds in case["threads"]
+            )
+        )
     return isinstance(case.get("threads"), list) and all(
         isinstance(docs, list)
         and all(isinstance(item, dict) and isinstance(item.get("document"), dict) for item in docs)
@@ -191,6 +340,8 @@ def fault_counts(stats):
 
 
 def sample_of(case):
+    if case.get("mode") == "shared_tree":
+        return {"mode": "shared_tree", "document": case["document"], "threads": case["threads"]}
     return {"threads": [[item["document"] for item in docs][:1] for docs in case["threads"]][:2], "policy": case.get("policy")}
 
 
